@@ -3,11 +3,18 @@ use crate::engine::{CaseCtx, CaseResult, Run};
 use crate::tape::Tape;
 
 pub mod c01;
+pub mod c03;
 pub mod c04;
+pub mod c05;
 pub mod c06;
 pub mod c10;
+pub mod c11;
+pub mod c12;
+pub mod c13;
 pub mod c15;
 pub mod flow;
+pub mod sched;
+pub mod wire;
 pub mod c16;
 pub mod c19;
 pub mod c20;
@@ -24,9 +31,14 @@ pub struct Prop {
 pub fn all() -> Vec<Prop> {
     vec![
         Prop { id: "C01", level: "exploration", case: c01::case, run: c01::run, replay_reps: 1 },
+        Prop { id: "C03", level: "exploration", case: c03::case, run: c03::run, replay_reps: 2 },
         Prop { id: "C04", level: "exploration", case: c04::case, run: c04::run, replay_reps: 4 },
+        Prop { id: "C05", level: "exploration", case: c05::case, run: c05::run, replay_reps: 8 },
         Prop { id: "C06", level: "exploration", case: c06::case, run: c06::run, replay_reps: 4 },
         Prop { id: "C10", level: "exploration", case: c10::case, run: c10::run, replay_reps: 4 },
+        Prop { id: "C11", level: "exploration", case: c11::case, run: c11::run, replay_reps: 16 },
+        Prop { id: "C12", level: "exploration", case: c12::case, run: c12::run, replay_reps: 16 },
+        Prop { id: "C13", level: "exploration", case: c13::case, run: c13::run, replay_reps: 16 },
         Prop { id: "C15", level: "exploration", case: c15::case, run: c15::run, replay_reps: 1 },
         Prop { id: "C16", level: "exploration", case: c16::case, run: c16::run, replay_reps: 1 },
         Prop { id: "C19", level: "exploration", case: c19::case, run: c19::run, replay_reps: 1 },
